@@ -216,6 +216,39 @@ func checkFreshVisitedSets(c *core.Ctx, r *core.Rule, prog *core.Prog, pkgs ...s
 					arg := call.Common().Args[mapParam]
 					key := fmt.Sprintf("visited-set:%s→%s", fnKeyFull(caller), fn.Name())
 					mk, ok := arg.(*ssa.MakeMap)
+					// a helper of the walk that hands its own map parameter on (the struct-field loop of isParamAllowed moved
+					// into a function of its own): fine when every call site of the helper passes the walk's own set (a
+					// parameter of the recursive function) or a fresh map
+					if prm, isP := arg.(*ssa.Parameter); !ok && isP && prm.Parent() == caller {
+						idx := -1
+						for i, q := range caller.Params {
+							if q == prm {
+								idx = i
+							}
+						}
+						nSites, allOK := 0, idx >= 0
+						for _, c2 := range core.PkgFuncs(prog.SSA, sp) {
+							for _, call2 := range core.Calls(c2) {
+								if call2.Common().StaticCallee() != caller || idx >= len(call2.Common().Args) {
+									continue
+								}
+								nSites++
+								switch a2 := call2.Common().Args[idx].(type) {
+								case *ssa.MakeMap:
+								case *ssa.Parameter:
+									if a2.Parent() != fn && a2.Parent() != caller {
+										allOK = false
+									}
+								default:
+									allOK = false
+								}
+							}
+						}
+						if allOK && nSites > 0 {
+							r.Pass(fmt.Sprintf("%s: a helper of the walk that hands on the set it was given", key))
+							continue
+						}
+					}
 					switch {
 					case !ok:
 						r.Fail(key, c.Pos(call.Pos()), fmt.Sprintf("%s calls %s with a visited set that is not allocated for this call (%s): what was visited for an earlier root, possibly in another context, is skipped for this one", caller.Name(), fn.Name(), describeValue(arg)))
